@@ -511,3 +511,351 @@ def lower_control(R):
                 if e == ("s", "b2", "brk") and nxt != ("exit",):
                     prob.append(f"break in the second loop continues with {nxt}")
         R.check(f"LOWER.sequence[{k1};{k2}]", LOW + ".Context.BeginLoop", not prob, detail="; ".join(sorted(set(prob))[:3]), replay=witness_replay("nested"))
+
+
+# ---------------------------------------------------------------------------
+# expressions, declarations, calls (straight-line emission)
+
+OPNAMES = ["ADD", "SUB", "MUL", "DIV", "MOD", "LG_AND", "LG_OR", "CMP_GT", "CMP_LT", "CMP_LE", "CMP_GE", "CMP_NE", "CMP_EQ"]
+
+
+def _events(lw):
+    ps = lw.paths()
+    if len(ps) != 1:
+        return None
+    return list(next(iter(ps)))
+
+
+@family("LOWER.expr", props=["C01", "C03", "C05", "C14"],
+        functions=[LOW + ".v_BinaryExpression", LOW + ".v_AssignmentExpression", LOW + ".v_PrimaryExpression", LOW + ".v_AffixExpression", LOW + ".v_VariableDeclaration",
+                   LOW + ".v_CastExpression", LOW + ".v_CallExpression", LOW + ".v_LiteralExpression", LOW + ".v_Function", LOW + ".__GetFunctionName",
+                   LOW + ".Context.LookupVariableScope", LOW + ".Context.RegisterFunctionLocalVariable", LOW + ".Context.OnEnterFunction", LOW + ".Context.InAssignment",
+                   "nsl.LinearIR::BinaryInstruction.FromOperation", "nsl.types::Function.GetMangledName", "nsl.passes.LowerToIR::_CreateLinearIRType"],
+        assumptions=["opaque sub-expressions are ghosts (uninterpreted value and effect); scalar operand types int/float"])
+def lower_expr(R):
+    """Scalar expressions emit exactly: operands left to right, then ONE instruction of the IRsem opcode of the operator with the operand values
+    in order and the adapted result type; `l = r` evaluates r then stores it through l; a name is loaded/stored in the scope of its declaration
+    (global / argument / local); ++x, x++, --x, x-- load x, add/subtract 1, store x and yield the new (prefix) or old (postfix) value; a
+    declaration declares the local and stores the initialiser; casts, calls (arguments in order, callee named as its definition is registered)
+    and literals likewise."""
+    a = ag.A()
+    ir = IR()
+    import nsl.types as ty
+    import nsl.op as op
+    I, F = ty.Integer(), ty.Float()
+    for opname in OPNAMES:
+        for (lt, rt, res) in ((I, I, I), (F, F, F if not (opname.startswith("CMP")) else I)):
+            lw = Lowering()
+            node = a.BinaryExpression(op.Operation[opname], ag.E("l", lt), ag.E("r", rt))
+            node.SetType(res)
+            v = lw.run(node)
+            ev = _events(lw)
+            want = [("e", "l"), ("e", "r"), ("i", (opname, "l", "r")), ("exit",)]
+            ok = ev == want and isinstance(v, ir.BinaryInstruction) and type(v.Type) is type(lw.ctx.AdaptType(res)) and not lw.problems
+            R.check(f"LOWER.BinaryExpression[{opname},{lt}]", LOW + ".v_BinaryExpression", ok, detail=f"emitted {ev}, expected {want}; value {type(v).__name__} of type {getattr(v, 'Type', None)}")
+    # assignment: right first, then store through the left
+    lw = Lowering()
+    node = a.AssignmentExpression(ag.E("l", I), ag.E("r", I))
+    v = lw.run(node)
+    ev = _events(lw)
+    R.check("LOWER.AssignmentExpression", LOW + ".v_AssignmentExpression", ev == [("e", "r"), ("store", "l", "r"), ("exit",)] and getattr(v, "tag", None) == "l",
+            detail=f"emitted {ev}")
+    # names: scope of the declaration; load / store
+    for name, scope in (("g", "GLOBAL"), ("p0", "FUNCTION_ARGUMENT"), ("x", "FUNCTION_LOCAL")):
+        lw = Lowering(globals_=["g"], locals_=["x"])
+        n = a.PrimaryExpression(name)
+        n.SetType(F)
+        v = lw.run(n)
+        ev = _events(lw)
+        R.check(f"LOWER.PrimaryExpression.load[{scope}]", LOW + ".v_PrimaryExpression", ev == [("i", ("load", scope, name, None)), ("exit",)] and isinstance(v.Type, ir.FloatType),
+                detail=f"emitted {ev}")
+        lw = Lowering(globals_=["g"], locals_=["x"])
+        n = a.PrimaryExpression(name)
+        n.SetType(I)
+        lw.run(a.AssignmentExpression(n, ag.E("r", I)))
+        ev = _events(lw)
+        R.check(f"LOWER.PrimaryExpression.store[{scope}]", LOW + ".v_PrimaryExpression", ev == [("e", "r"), ("i", ("store", scope, name, "r")), ("exit",)], detail=f"emitted {ev}")
+    # ++ / --
+    for o, oname in ((op.Operation.ADD, "ADD"), (op.Operation.SUB, "SUB")):
+        for affix, aname in ((a.Affix.PRE, "prefix"), (a.Affix.POST, "postfix")):
+            lw = Lowering(locals_=["x"])
+            n = a.PrimaryExpression("x")
+            n.SetType(I)
+            node = a.AffixExpression(o, n, affix)
+            node.SetType(I)
+            v = lw.run(node)
+            ev = _events(lw) or []
+            loads = [e for e in ev if e[0] == "i" and e[1][0] == "load"]
+            bins = [e for e in ev if e[0] == "i" and e[1][0] == oname]
+            stores = [e for e in ev if e[0] == "i" and e[1][0] == "store"]
+            ok = len(loads) == 1 and len(bins) == 1 and len(stores) == 1 and ev.index(loads[0]) < ev.index(bins[0]) < ev.index(stores[0]) and len(ev) == 4
+            if ok:
+                b = bins[0][1]
+                ok = b[1][0] == "%" and b[1][1] == "VariableAccessInstruction" and b[2] == ("const", 1) and stores[0][1][1:3] == ("FUNCTION_LOCAL", "x") and stores[0][1][3][1] == "BinaryInstruction"
+                ok = ok and ((isinstance(v, ir.BinaryInstruction)) if affix == a.Affix.PRE else (isinstance(v, ir.VariableAccessInstruction) and v.Store is None))
+            R.check(f"LOWER.AffixExpression[{aname},{oname}]", LOW + ".v_AffixExpression", ok and not lw.problems,
+                    detail=f"emitted {ev}; yields {type(v).__name__}; {'; '.join(lw.problems[:2])}")
+    # declarations
+    for init in (False, True):
+        lw = Lowering()
+        node = a.VariableDeclaration(I, "v", ag.E("init", I) if init else None)
+        lw.run(node)
+        ev = _events(lw)
+        want = [("i", ("declare", "v"))] + ([("e", "init"), ("i", ("store", "FUNCTION_LOCAL", "v", "init"))] if init else []) + [("exit",)]
+        R.check(f"LOWER.VariableDeclaration[{'init' if init else 'noinit'}]", LOW + ".v_VariableDeclaration", ev == want and lw.ctx.LookupVariableScope("v") == ir.VariableAccessScope.FUNCTION_LOCAL,
+                detail=f"emitted {ev}, expected {want}")
+    # a new function forgets the locals and parameters of the previous one
+    lw = Lowering(arg_types={"q": ir.IntegerType()}, locals_=["tmp"])
+    lw.ctx.OnLeaveFunction()
+    lw.ctx.OnEnterFunction("g", ir.FunctionType(ir.IntegerType(), collections.OrderedDict([("r", ir.IntegerType())])))
+    stale = []
+    for nm in ("q", "tmp"):
+        try:
+            lw.ctx.LookupVariableScope(nm)
+            stale.append(nm)
+        except KeyError:
+            pass
+    R.check("LOWER.OnEnterFunction.resets-names", LOW + ".Context.OnEnterFunction", not stale and lw.ctx.LookupVariableScope("r") == ir.VariableAccessScope.FUNCTION_ARGUMENT,
+            detail=f"names of the previous function still resolve in the next one: {stale}")
+    # cast
+    lw = Lowering()
+    node = a.CastExpression(ag.E("x", I), F, True)
+    v = lw.run(node)
+    ev = _events(lw)
+    R.check("LOWER.CastExpression", LOW + ".v_CastExpression", ev == [("e", "x"), ("i", ("cast", "float", "x")), ("exit",)] and isinstance(v, ir.CastInstruction), detail=f"emitted {ev}")
+    # literal
+    for val, t in ((5, I), (2.5, F), (0, I), (0.0, F)):
+        lw = Lowering()
+        v = lw.run(a.LiteralExpression(val, t))
+        R.check(f"LOWER.LiteralExpression[{val!r}]", LOW + ".v_LiteralExpression", isinstance(v, ir.ConstantValue) and v.Value == val and type(v.Value) is type(val)
+                and type(v.Type) is type(lw.ctx.AdaptType(t)), detail=f"literal {val!r} lowered to {getattr(v, 'Value', v)!r} of type {getattr(v, 'Type', None)}")
+    # calls
+    from .overload_c import make_function
+    for exported in (False, True):
+        for nargs in (0, 1, 3):
+            fn_t = make_function("h", [I, F, I][:nargs], exported)
+            lw = Lowering()
+            node = a.CallExpression(fn_t, [ag.E(f"a{i}", [I, F, I][i]) for i in range(nargs)])
+            node.SetType(I)
+            v = lw.run(node)
+            ev = _events(lw)
+            name = "h" if exported else fn_t.GetMangledName()
+            want = [("e", f"a{i}") for i in range(nargs)] + [("i", ("call", name, tuple(f"a{i}" for i in range(nargs)))), ("exit",)]
+            R.check(f"LOWER.CallExpression[{'exported' if exported else 'internal'},{nargs}]", LOW + ".v_CallExpression", ev == want, detail=f"emitted {ev}, expected {want}")
+            # ... and the definition is registered under the same name
+            lw2 = Lowering()
+            fnode = a.Function("h", [a.Argument([I, F, I][i], f"p{i}") for i in range(nargs)], I, a.CompoundStatement([]), isExported=exported)
+            fnode.GetType().Resolve(ty.Scope())
+            lw2.ctx.OnLeaveFunction()
+            lw2.vis.v_Generic(fnode, lw2.ctx)
+            R.check(f"LOWER.Function.name[{'exported' if exported else 'internal'},{nargs}]", LOW + ".v_Function", name in lw2.ctx.Module.Functions
+                    and list(lw2.ctx.Module.Functions[name].Type.Arguments) == [f"p{i}" for i in range(nargs)],
+                    detail=f"definition registered as {list(lw2.ctx.Module.Functions)}, call names {name!r}")
+    # mangled names separate overloads
+    m1 = make_function("h", [I]).GetMangledName()
+    m2 = make_function("h", [F]).GetMangledName()
+    m3 = make_function("h", [I, I]).GetMangledName()
+    m4 = make_function("h", [ty.VectorType(F, 2)]).GetMangledName()
+    R.check("LOWER.mangling.injective", "nsl.types::Function.GetMangledName", len({m1, m2, m3, m4}) == 4, detail=f"{[m1, m2, m3, m4]}")
+
+
+@family("LOWER.adapt", props=["C05", "C01", "C04"], functions=["nsl.passes.LowerToIR::_CreateLinearIRType"],
+        assumptions=["type shapes enumerated: 3 scalars, vectors 1-4, matrices 1-4 x 1-4, arrays of rank 1-3, structs (nested), function types, void"])
+def lower_adapt(R):
+    """_CreateLinearIRType is total on every front-end type shape and preserves kind, component type, sizes (rows/columns in order),
+    array dimensions in order and field names in order."""
+    import nsl.types as ty
+    ir = IR()
+    f = resolve("nsl.passes.LowerToIR::_CreateLinearIRType")
+
+    def same(t, r):
+        if isinstance(t, ty.Integer):
+            return isinstance(r, ir.IntegerType) and not r.Unsigned
+        if isinstance(t, ty.UnsignedInteger):
+            return isinstance(r, ir.IntegerType) and r.Unsigned
+        if isinstance(t, ty.Float):
+            return isinstance(r, ir.FloatType)
+        if isinstance(t, ty.VectorType):
+            return isinstance(r, ir.VectorType) and r.Size == t.GetComponentCount() and same(t.GetComponentType(), r.ElementType)
+        if isinstance(t, ty.MatrixType):
+            return isinstance(r, ir.MatrixType) and r.RowCount == t.GetRowCount() and r.ColumnCount == t.GetColumnCount() and same(t.GetComponentType(), r.ElementType) \
+                and r.RowType.Size == t.GetColumnCount()
+        if isinstance(t, ty.ArrayType):
+            return isinstance(r, ir.ArrayType) and list(r.Size) == list(t.GetSize()) and same(t.GetComponentType(), r.ElementType)
+        if isinstance(t, ty.StructType):
+            names = list(t.GetMembers().GetSymbolNames())
+            return isinstance(r, ir.StructureType) and list(r.Fields) == names and all(same(t.GetFieldType(n), r.Fields[n]) for n in names) and r.Name == t.GetName()
+        if isinstance(t, ty.Void):
+            return isinstance(r, ir.VoidType)
+        return False
+
+    U = tc.universe()
+    s1 = ty.StructType("S", collections.OrderedDict([("b", ty.Float()), ("a", ty.Integer())]))
+    s2 = ty.StructType("T", collections.OrderedDict([("s", s1), ("arr", ty.ArrayType(ty.Integer(), [2, 3])), ("v", ty.VectorType(ty.Float(), 3))]))
+    U += [ty.ArrayType(ty.Integer(), [3]), ty.ArrayType(ty.Float(), [2, 3]), ty.ArrayType(ty.Float(), [3, 2]), ty.ArrayType(ty.VectorType(ty.Float(), 2), [4, 1, 2]), s1, s2,
+          ty.ArrayType(s1, [2]), ty.Void()]
+    for t in U:
+        try:
+            r = f(t)
+            ok, det = same(t, r), f"{t!r} adapted to {r}"
+        except Exception as e:
+            ok, det = False, f"{t!r}: raised {type(e).__name__}: {e}"
+        R.check(f"LOWER.adapt[{t!r}]", "nsl.passes.LowerToIR::_CreateLinearIRType", ok, detail=det)
+    from .overload_c import make_function
+    ft = make_function("h", [ty.Integer(), ty.VectorType(ty.Float(), 2)])
+    r = f(ft)
+    R.check("LOWER.adapt[function]", "nsl.passes.LowerToIR::_CreateLinearIRType", isinstance(r, ir.FunctionType) and list(r.Arguments) == ["p0", "p1"] and same(ty.Integer(), r.Arguments["p0"])
+            and same(ty.VectorType(ty.Float(), 2), r.Arguments["p1"]) and same(ty.Integer(), r.ReturnType), detail="function type: parameter names in order, parameter and return types")
+
+
+@family("LOWER.argaccess", props=["C01", "C03", "C14"], functions=["nsl.passes.RewriteFunctionArgAccess::RewriteFunctionArgAccessVisitor.v_Function",
+                                                              "nsl.passes.RewriteFunctionArgAccess::RewriteFunctionArgAccessVisitor.v_VariableAccessInstruction"])
+def lower_argaccess(R):
+    """The index substituted for a parameter name is its position in the function type (the position at which Invoke / CALL place the argument);
+    the rewritten instruction keeps reference, type, store operand and parent; other scopes are untouched."""
+    ir = IR()
+    cls = resolve("nsl.passes.RewriteFunctionArgAccess::RewriteFunctionArgAccessVisitor")
+    I = ir.IntegerType()
+    names = ["alpha", "beta", "gamma"]
+    f = ir.Function("f", ir.FunctionType(I, collections.OrderedDict((n, I) for n in names)))
+    bb = f.CreateBasicBlock()
+    b2 = f.CreateBasicBlock()
+    loads = [bb.AddInstruction(ir.VariableAccessInstruction(I, n, ir.VariableAccessScope.FUNCTION_ARGUMENT)) for n in reversed(names)]
+    st = ir.VariableAccessInstruction(I, "beta", ir.VariableAccessScope.FUNCTION_ARGUMENT)
+    st.SetStore(loads[0])
+    b2.AddInstruction(st)
+    loc = bb.AddInstruction(ir.VariableAccessInstruction(I, "alpha", ir.VariableAccessScope.FUNCTION_LOCAL))
+    glo = b2.AddInstruction(ir.VariableAccessInstruction(I, "gamma", ir.VariableAccessScope.GLOBAL))
+    refs = [i.Reference for i in f.Instructions]
+    m = ir.Module()
+    m.Functions["f"] = f
+    cls().Visit(m)
+    ins = f.Instructions
+    want = {2: "gamma", 1: "beta", 0: "alpha"}
+    got = [(i.Variable, i.Scope.name) for i in ins]
+    newst = [i for i in ins if i.Parent is b2 and i.Scope == ir.VariableAccessScope.FUNCTION_ARGUMENT]
+    ok = [i.Reference for i in ins] == refs and [i.Variable for i in ins[:3]] == [2, 1, 0] and len(newst) == 1 and newst[0].Variable == 1 and newst[0].Store is not None \
+        and newst[0].Store.Reference == refs[0] and newst[0].OpCode == ir.OpCode.STORE and loc in ins and glo in ins and loc.Variable == "alpha" and glo.Variable == "gamma"
+    R.check("LOWER.argaccess", "nsl.passes.RewriteFunctionArgAccess::RewriteFunctionArgAccessVisitor.v_VariableAccessInstruction", ok, detail=f"after the pass: {got}")
+
+
+# ---------------------------------------------------------------------------
+# rewrite pass and grammar actions (C01.rewrite / C01.parse / C16.parse)
+
+@family("FRONT.rewrite", props=["C01"], functions=["nsl.passes.RewriteAssignEqualOperations::RewriteAssignEqualVisitor.v_AssignmentExpression"])
+def front_rewrite(R):
+    """`x op= e` becomes `x = x op e` with the operator of that spelling; `x = e` is returned unchanged."""
+    a = ag.A()
+    import nsl.op as op
+    cls = resolve("nsl.passes.RewriteAssignEqualOperations::RewriteAssignEqualVisitor")
+    for aop, bop in (("ASSIGN_ADD_EQUAL", "ADD"), ("ASSIGN_SUB_EQUAL", "SUB"), ("ASSIGN_MUL_EQUAL", "MUL"), ("ASSIGN_DIV_EQUAL", "DIV")):
+        l, r = ag.E("l"), ag.E("r")
+        n = a.AssignmentExpression(l, r, operation=op.Operation[aop])
+        res = cls().v_Generic(n, None)
+        ok = isinstance(res, a.AssignmentExpression) and res.GetOperation() == op.Operation.ASSIGN and res.GetLeft() is l and isinstance(res.GetRight(), a.BinaryExpression) \
+            and type(res.GetRight()) is a.BinaryExpression and res.GetRight().GetOperation() == op.Operation[bop] and res.GetRight().GetLeft() is l and res.GetRight().GetRight() is r
+        R.check(f"FRONT.rewrite[{aop}]", "nsl.passes.RewriteAssignEqualOperations::RewriteAssignEqualVisitor.v_AssignmentExpression", ok, detail=f"rewritten to {res}")
+    l, r = ag.E("l"), ag.E("r")
+    n = a.AssignmentExpression(l, r)
+    res = cls().v_Generic(n, None)
+    R.check("FRONT.rewrite[ASSIGN]", "nsl.passes.RewriteAssignEqualOperations::RewriteAssignEqualVisitor.v_AssignmentExpression", res is n or res is None, detail="plain assignment must stay")
+
+
+@family("FRONT.parse-actions", props=["C01", "C08", "C16", "C13"], functions=["nsl.parser::NslParser.p_*", "nsl.op::StrToOp"],
+        assumptions=["the real grammar actions run on a parser created without __init__ and a stand-in production object; the role of each right-hand-side symbol is read from the action's own docstring production"])
+def front_parse_actions(R):
+    """Each grammar action builds the node its production names, with the sub-trees in the roles their positions dictate: condition/body/else/
+    init/next of the statements, ++/-- as ADD/SUB with PRE/POST by token position, the assignment operator of that spelling, operands of a
+    binary expression in source order (both alternatives), declarations with name and initialiser, import names, array sizes in source order."""
+    from .location_c import FakeP, new_parser
+    a = ag.A()
+    import nsl.op as op
+    import nsl.types as ty
+    P = "nsl.parser::NslParser."
+
+    def act(name, values):
+        p = FakeP(list(values), list(range(1, len(values) + 1)))
+        resolve(P + name)(new_parser(), p)
+        return p[0]
+
+    c, t, f, b, i, n, e = ag.E("c"), ag.S("t"), ag.S("f"), ag.S("b"), ag.N("i"), ag.E("n"), ag.E("e")
+    r = act("p_selection_statement_1", ["if", "(", c, ")", t])
+    R.check("FRONT.parse[selection_statement_1]", P + "p_selection_statement_1", isinstance(r, a.IfStatement) and r.GetCondition() is c and r.GetTruePath() is t and not r.HasElsePath(), detail=str(r))
+    r = act("p_selection_statement_2", ["if", "(", c, ")", t, "else", f])
+    R.check("FRONT.parse[selection_statement_2]", P + "p_selection_statement_2", isinstance(r, a.IfStatement) and r.GetCondition() is c and r.GetTruePath() is t and r.GetElsePath() is f, detail=str(r))
+    r = act("p_iteration_statement_1", ["for", "(", i, ";", c, ";", n, ")", b])
+    R.check("FRONT.parse[iteration_statement_1]", P + "p_iteration_statement_1", isinstance(r, a.ForStatement) and r.GetInitialization() is i and r.GetCondition() is c and r.GetNext() is n and r.GetBody() is b, detail="for: init/cond/next/body roles")
+    r = act("p_iteration_statement_2", ["while", "(", c, ")", b])
+    R.check("FRONT.parse[iteration_statement_2]", P + "p_iteration_statement_2", isinstance(r, a.WhileStatement) and r.GetCondition() is c and r.GetBody() is b, detail="while: cond/body roles")
+    r = act("p_iteration_statement_3", ["do", b, "while", "(", c, ")"])
+    R.check("FRONT.parse[iteration_statement_3]", P + "p_iteration_statement_3", isinstance(r, a.DoStatement) and r.GetCondition() is c and r.GetBody() is b, detail="do: body/cond roles")
+    R.check("FRONT.parse[iteration_statement_4]", P + "p_iteration_statement_4", type(act("p_iteration_statement_4", ["continue", ";"])) is a.ContinueStatement, detail="continue")
+    R.check("FRONT.parse[iteration_statement_5]", P + "p_iteration_statement_5", type(act("p_iteration_statement_5", ["break", ";"])) is a.BreakStatement, detail="break")
+    r = act("p_return_statement_1", ["return", e, ";"])
+    R.check("FRONT.parse[return_statement_1]", P + "p_return_statement_1", isinstance(r, a.ReturnStatement) and r.GetExpression() is e, detail="return e")
+    r = act("p_return_statement_2", ["return", ";"])
+    R.check("FRONT.parse[return_statement_2]", P + "p_return_statement_2", isinstance(r, a.ReturnStatement) and r.GetExpression() is None, detail="return")
+    stmts = [ag.S("s0"), ag.S("s1")]
+    r = act("p_compound_statement", ["{", stmts, "}"])
+    R.check("FRONT.parse[compound_statement]", P + "p_compound_statement", isinstance(r, a.CompoundStatement) and list(r.GetStatements()) == stmts, detail="block")
+    r = act("p_statement_list_1", [[stmts[0]], stmts[1]])
+    R.check("FRONT.parse[statement_list]", P + "p_statement_list_1", r == stmts, detail="statement order")
+    r = act("p_expression_statement", [e, ";"])
+    R.check("FRONT.parse[expression_statement]", P + "p_expression_statement", isinstance(r, a.ExpressionStatement) and r.GetExpression() is e, detail="expr;")
+    d = ag.N("d")
+    r = act("p_declaration_statement", [d, ";"])
+    R.check("FRONT.parse[declaration_statement]", P + "p_declaration_statement", isinstance(r, a.DeclarationStatement) and r.GetDeclarations() == [d], detail="decl;")
+    for tok, o in (("++", op.Operation.ADD), ("--", op.Operation.SUB)):
+        r = act("p_unary_expression_3", [tok, "x"])
+        R.check(f"FRONT.parse[unary_expression_3,{tok}]", P + "p_unary_expression_3", isinstance(r, a.AffixExpression) and r.GetOperation() == o and r.IsPrefix() and r.GetExpression().GetName() == "x", detail="prefix")
+        r = act("p_unary_expression_4", ["x", tok])
+        R.check(f"FRONT.parse[unary_expression_4,{tok}]", P + "p_unary_expression_4", isinstance(r, a.AffixExpression) and r.GetOperation() == o and r.IsPostfix() and r.GetExpression().GetName() == "x", detail="postfix")
+    for sp, o in (("=", "ASSIGN"), ("+=", "ASSIGN_ADD_EQUAL"), ("-=", "ASSIGN_SUB_EQUAL"), ("*=", "ASSIGN_MUL_EQUAL"), ("/=", "ASSIGN_DIV_EQUAL")):
+        r = act("p_assignment_op", [sp])
+        R.check(f"FRONT.parse[assignment_op,{sp}]", P + "p_assignment_op", r == op.Operation[o], detail=f"{sp} -> {r}")
+        l2, r2 = ag.E("l"), ag.E("r")
+        n2 = act("p_assignment_expression", [l2, op.Operation[o], r2])
+        R.check(f"FRONT.parse[assignment_expression,{sp}]", P + "p_assignment_expression", isinstance(n2, a.AssignmentExpression) and n2.GetLeft() is l2 and n2.GetRight() is r2 and n2.GetOperation() == op.Operation[o], detail="assignment roles")
+    from .types_c import OPSTR
+    for oname, sp in OPSTR.items():
+        l2, r2 = ag.E("l"), ag.E("r")
+        n2 = act("p_binary_expression", [l2, sp, r2])
+        ok = type(n2) is a.BinaryExpression and n2.GetOperation() == op.Operation[oname] and n2.GetLeft() is l2 and n2.GetRight() is r2
+        n3 = act("p_binary_expression", ["(", l2, sp, r2, ")"])
+        ok3 = type(n3) is a.BinaryExpression and n3.GetOperation() == op.Operation[oname] and n3.GetLeft() is l2 and n3.GetRight() is r2
+        R.check(f"FRONT.parse[binary_expression,{oname}]", P + "p_binary_expression", ok and ok3 and act("p_bin_op", [sp]) == sp, detail=f"{sp}: plain alternative ok={ok}, parenthesised ok={ok3}")
+    r = act("p_var_decl_1", [ty.Integer(), "name"])
+    R.check("FRONT.parse[var_decl_1]", P + "p_var_decl_1", isinstance(r, a.VariableDeclaration) and r.GetName() == "name" and isinstance(r.GetType(), ty.Integer) and not r.HasInitializerExpression(), detail="decl")
+    r = act("p_var_decl_2", [ty.Float(), "name", "=", e])
+    R.check("FRONT.parse[var_decl_2]", P + "p_var_decl_2", isinstance(r, a.VariableDeclaration) and r.GetName() == "name" and isinstance(r.GetType(), ty.Float) and r.GetInitializerExpression() is e, detail="decl with initialiser")
+    # array sizes in source order
+    lit = lambda v: a.LiteralExpression(v, ty.Integer())
+    s1 = act("p_array_size_declaration", ["[", lit(2), "]"])
+    s2 = act("p_array_size_declaration", ["[", lit(3), "]"])
+    lst = act("p_array_size_declaration_list", [act("p_array_size_declaration_list", [s1]), s2])
+    at = act("p_type_4", [ty.Integer(), lst])
+    R.check("FRONT.parse[array-dims]", P + "p_type_4", isinstance(at, ty.ArrayType) and tuple(at.GetSize()) == (2, 3) and isinstance(at.GetComponentType(), ty.Integer), detail=f"int[2][3] parsed with sizes {getattr(at, 'GetSize', lambda: None)()}")
+    # literals
+    R.check("FRONT.parse[int-literals]", P + "p_constant_integer_expression_1", act("p_constant_integer_expression_1", ["42"]).GetValue() == 42 and act("p_constant_integer_expression_2", ["017"]).GetValue() == 15
+            and act("p_constant_integer_expression_3", ["0x1F"]).GetValue() == 31 and isinstance(act("p_constant_integer_expression_1", ["42"]).GetType(), ty.Integer), detail="integer literal values")
+    fl = act("p_constant_float_expression", ["2.5f"])
+    R.check("FRONT.parse[float-literal]", P + "p_constant_float_expression", fl.GetValue() == 2.5 and isinstance(fl.GetType(), ty.Float), detail="float literal")
+    # imports (C16)
+    R.check("FRONT.parse[string_literal]", P + "p_string_literal", act("p_string_literal", ['"std"']) == "std", detail="quotes stripped")
+    R.check("FRONT.parse[import_statement]", P + "p_import_statement", act("p_import_statement", ["import", "std", ";"]) == "std", detail="import name")
+    m7 = act("p_module_7", ["std"])
+    R.check("FRONT.parse[module_7]", P + "p_module_7", isinstance(m7, a.Module) and m7.GetImports() == {"std"}, detail=f"imports {m7.GetImports()}")
+    base = a.Module()
+    m8 = act("p_module_8", [base, "lib"])
+    R.check("FRONT.parse[module_8]", P + "p_module_8", m8 is base and m8.GetImports() == {"lib"}, detail=f"`<module> import \"lib\";` records imports {m8.GetImports()!r}",
+            replay=script("""
+                from nsl import parser
+                m = parser.NslParser().Parse('int g;\\nimport "lib";\\nexport function f() -> int { return 1; }')
+                print('imports:', m.GetImports())
+                if m.GetImports() != {'lib'}: print('REPLAY-CONFIRMED')
+                """))
+    for k, (nm, adder, getter) in enumerate((("p_module_2", "function", "GetFunctions"), ("p_module_4", "declaration", "GetDeclarations"))):
+        base = a.Module()
+        item = ag.N("item")
+        mm = act(nm, [base, item])
+        R.check(f"FRONT.parse[{nm}]", P + nm, mm is base and list(getattr(mm, getter)()) == [item], detail=f"module {adder}")
